@@ -75,3 +75,45 @@ loop_invariant(
          "len(parameters_bounds) == 2 and len(parameters_bounds[0]) == n() and len(parameters_bounds[1]) == n()"],
     props=["C15"],
 )
+
+# ---- discretisation -----------------------------------------------------------------------------------------------
+klass("SearchSpace", fields={"_parameters_bounds": "arr2[real]", "_parameters_precision": "arr1[real]",
+                             "_param_grid": "list[seq[real]]", "_space_size": "int"})
+
+_GDEFS = dict(_DEFS)
+_GDEFS.update({"glen": (["i"], "arange_len(lb(i), ub(i) + 0.0000001, pr(i))"),
+               "grid": (["i"], "self._param_grid[i]")})
+
+contract(
+    f"{F}::SearchSpace.__init__",
+    params={"parameters_bounds": "seq[seq[real]]", "parameters_precision": "seq[real]", "verbose": "bool"},
+    defs=_GDEFS, props=["C15", "C03"],
+    may_raise=["SearchSpaceError"],
+    ensures=[
+        "self.dims == n() and len(self._param_grid) == n()",
+        # per parameter: the evenly spaced grid lower, lower + precision, ... (Real arithmetic)
+        "forall(range(0, n()), lambda i: len(grid(i)) == glen(i) and forall(range(0, glen(i)), lambda k: "
+        "grid(i)[k] == lb(i) + k * pr(i)))",
+        # well-formed (positive precision): it starts at the lower bound, is strictly increasing, and ends at the LAST
+        # step not beyond the upper bound (+1e-7 tolerance): the last element is below upper+1e-7, one more step is not
+        "forall(range(0, n()), lambda i: implies(pr(i) > 0, len(grid(i)) >= 1 and grid(i)[0] == lb(i) and "
+        "grid(i)[len(grid(i)) - 1] < ub(i) + 0.0000001 and grid(i)[len(grid(i)) - 1] + pr(i) >= ub(i) + 0.0000001))",
+        "forall(range(0, n()), lambda i: implies(pr(i) > 0, forall(lambda j, k: implies(0 <= j and j < k and "
+        "k < len(grid(i)), grid(i)[j] < grid(i)[k]))))",
+        # the reported size is the product of the grid lengths
+        "self.space_size == fprod(lambda j: arange_len(lb(j), ub(j) + 0.0000001, pr(j)), n())",
+    ],
+    modifies=["self.*"],
+    notes="np.arange is an assumed contract in REAL arithmetic: NumPy computes the length as ceil((stop-start)/step) in "
+          "floating point, so for ranges that are a multiple of the precision only in decimal (0.3/0.1) the real grid can "
+          "differ by one point - decided by the bounded stand-in C15/grid. A negative precision passes validation and "
+          "yields an empty grid (observation, outside the enumerated malformed classes).")
+
+loop_invariant(f"{F}::SearchSpace.__init__", 1, over="range(self.dims)", var="col",
+               inv=["len(self._param_grid) == col and len(parameters_precision) == n() and self.dims == n()",
+                    "len(parameters_bounds) == 2 and len(parameters_bounds[0]) == n() and len(parameters_bounds[1]) == n()",
+                    "forall(range(0, n()), lambda i: not defect(i))",
+                    "forall(range(0, col), lambda i: len(grid(i)) == glen(i) and forall(range(0, glen(i)), lambda k: "
+                    "grid(i)[k] == lb(i) + k * pr(i)))",
+                    "self._space_size == fprod(lambda j: arange_len(lb(j), ub(j) + 0.0000001, pr(j)), col)"],
+               props=["C15"])
